@@ -246,7 +246,10 @@ def _lost_to_absent_rival(h, hits, out, lengths, neighbour_mode) -> bool:
         return any(x != h and better(x, h) and conflict(x, h, lengths) and not represented(x, out) for x in hits)
     rivals = list(hits) + all_units(hits, lengths)
     selves = [h] + _merge_units(h, hits, lengths)
-    return any(x.p != me.p and better(x, me) and conflict(x, me, lengths) and not represented(x, out)
+    # same-profile rivals compete too (fragments too far apart to merge stay separate hits), but a merge that
+    # contains the candidate is the candidate itself, not a rival
+    return any((x.p != me.p or not contains(x, me)) and x != me and better(x, me) and conflict(x, me, lengths)
+               and not represented(x, out)
                for me in selves for x in rivals)
 
 
